@@ -120,6 +120,12 @@ func runConservation(e *Env, prop string) {
 	t0 := time.Now()
 
 	series := GenSeries(e, nSeries, []string{"c", "c", "ms", "h", "s", "g"})
+	for _, s := range series {
+		if (s.Type == "ms" || s.Type == "h") && e.Chance(1, 4) {
+			s.Tags = append(s.Tags, histTags[e.Draw(len(histTags))]) // a histogram timer's values are datapoints like any other
+			e.Probe("histogram-timer-series")
+		}
+	}
 	type dgram struct {
 		dps     []DP
 		payload []byte
